@@ -279,4 +279,10 @@ def r03_6(ctx):
             o["rule"] = "R03.6"
 
 
-RULES = [("R03.1", r03_1), ("R03.2", r03_2), ("R03.3", r03_3), ("R03.4", r03_4), ("R03.5", r03_5), ("R03.6", r03_6)]
+def r03_s(ctx):
+    """surrogate look-ahead prefix (shared with C09)"""
+    from . import c09
+    ctx.include(c09.r09_8, 'R03.S')
+
+
+RULES = [("R03.1", r03_1), ("R03.2", r03_2), ("R03.3", r03_3), ("R03.4", r03_4), ("R03.5", r03_5), ("R03.6", r03_6), ("R03.S", r03_s)]
